@@ -90,14 +90,21 @@ def case_taint(ctx, f, raw_names, rule):
         if not isinstance(n, ast.Compare):
             continue
         ops = [n.left] + list(n.comparators)
+        pairs = []
         for i, op in enumerate(n.ops):
-            a, b = ops[i], ops[i + 1]
-            if not isinstance(op, (ast.Eq, ast.NotEq, ast.In, ast.NotIn)):
-                continue
+            if isinstance(op, (ast.Eq, ast.NotEq, ast.In, ast.NotIn)):
+                pairs.append((ops[i], ops[i + 1]))
+        # a == b == c: equality is transitive, every pair is compared
+        if len(n.ops) > 1 and all(isinstance(o, ast.Eq) for o in n.ops):
+            pairs = [(x, y) for i, x in enumerate(ops) for y in ops[i + 1:]]
+        for a, b in pairs:
             for x, y in ((a, b), (b, a)):
                 if isinstance(x, ast.Name) and x.id in raw:
                     n_cmp += 1
                     cc = _cased_constant(ctx.model, f, y, consts)
+                    if cc is None and isinstance(y, ast.Attribute) and y.attr == "name":
+                        # component name constants are upper-case (C01/NAME)
+                        cc = [f"<{dump(y)}: upper-case component name>"]
                     if cc is not None:
                         sites.append((n, x.id, cc))
     return sites, n_cmp, raw
